@@ -415,8 +415,12 @@ pub fn run_c12(tier: Tier) -> i32 {
     let mut modules: BTreeMap<usize, String> = BTreeMap::new();
     let n_compile = tier.pick(160, 3000);
     let step = (n_single / n_compile.max(1)).max(1);
-    for i in (0..n_single).step_by(step) {
-        if first[i].0.is_ok() {
+    for i in 0..n_single {
+        // a stride sample of the profiles, and every definition of the scaling families (long
+        // literals, many rules, wide alternations: their state machines have shapes — long chains
+        // of inlined states, hundreds of arms — that small definitions never produce)
+        let take = i % step == 0 || specs[i].0 == "scaling";
+        if take && first[i].0.is_ok() {
             let mut body = specs[i].1.print_macro("Lexer");
             // the glue is not needed to decide "compiles"; switch kinds need rule_of
             body = specs[i].1.print_module_body("Lexer");
